@@ -602,6 +602,11 @@ def run_conditional(ctx, res, deep):
         for a in ops:
             for b in sample if not deep else ops:
                 jobs.append((shape, inits[1], [a, b]))
+        # store and role links apart (automatic building off, any call), then the calls that rebuild the links from the policy
+        for init in inits[1:]:
+            for b in ops:
+                for c in (("load",), ("build",)):
+                    jobs.append((shape, init, [("autobuild", False), b, ("autobuild", True), c]))
         for _ in range(150 if not deep else 3000):
             jobs.append((shape, rng.choice(inits), [rng.choice(ops) for _ in range(rng.randint(3, 8))]))
     with ec.mp.Pool(12) as pool:
